@@ -107,9 +107,14 @@ def run_queries(script_text, queries, cmd='cmd', wordbreaks=None, timeout=120):
         shutil.rmtree(tmp, ignore_errors=True)
 
 
-def run_many(jobs, **kw):
-    """jobs: list of (script_text, queries[, cmd]) -> list of (results, stderr), in parallel."""
-    def work(j):
-        return run_queries(j[0], j[1], cmd=(j[2] if len(j) > 2 else 'cmd'), **kw)
+def run_many(jobs, wordbreaks_list=None, **kw):
+    """jobs: list of (script_text, queries[, cmd]) -> list of (results, stderr), in parallel.
+    wordbreaks_list: one COMP_WORDBREAKS value (or None = default) per job."""
+    def work(ij):
+        i, j = ij
+        k = dict(kw)
+        if wordbreaks_list is not None:
+            k['wordbreaks'] = wordbreaks_list[i]
+        return run_queries(j[0], j[1], cmd=(j[2] if len(j) > 2 else 'cmd'), **k)
     with ThreadPoolExecutor(max_workers=paths.NCPU) as ex:
-        return list(ex.map(work, jobs))
+        return list(ex.map(work, list(enumerate(jobs))))
